@@ -6,7 +6,7 @@ from . import irv_common as I
 
 class C03(Prop):
     layouts = True
-    translators = ['flow', 'irvsmall']   # ford_fulkerson / dfs_path (Irving's closed-subset step) regenerated from flow.py on every run
+    translators = ['flow', 'irvsmall', 'mwcs']   # ford_fulkerson / dfs_path (Irving's closed-subset step) regenerated from flow.py on every run
     pid = "C03"
     sources = ["socialchoicekit/deterministic_matching.py", "socialchoicekit/flow.py"]
     groups = {"irv": Group("irv", "From SCK Require Import Irving RunIrv.", "RunIrv.irv_case", "RunIrv.chk_irv", shard=12),
@@ -81,6 +81,24 @@ class C03(Prop):
                 Q1, Q2 = I.gen_profiles(rng, "rand", 5); W1, W2 = I.gen_valuations(rng, Q1, Q2, "rand")
                 c["prelude"] = dict(P1=Q1, P2=Q2, V1=W1, V2=W2); c["family"] = kind + "_history"
             yield c
+
+    def neighbours(self, case):
+        """used by the search after a broken correspondence: the SAME ordinal instance under many valuation patterns (a wrong intermediate structure - poset
+        edge, eliminating rotation, weight - turns into a wrong matching only for some weights), then the usual smaller instances"""
+        import random
+        P1, P2 = self.ordinal(case); n = len(P1); r = random.Random(n * 1000003 + sum(map(sum, P1)))
+        for t in range(120):
+            kind = t % 4
+            if kind == 0: V1, V2 = I.gen_valuations(r, P1, P2, "rand")
+            elif kind == 1: V1, V2 = I.gen_valuations(r, P1, P2, "ties")
+            elif kind == 2:      # sparse: almost all zeros, a few positive entries on one side
+                V1 = [[0] * n for _ in range(n)]; V2 = [[0] * n for _ in range(n)]
+                for _ in range(r.randint(1, 3)): V1[r.randrange(n)][r.randrange(n)] = r.randint(1, 5)
+                if t % 8 == 6: V2[r.randrange(n)][r.randrange(n)] = r.randint(1, 5)
+            else:                # signed pattern: small values, many equal
+                V1 = [[r.choice([0, 0, 1, 2]) for _ in range(n)] for _ in range(n)]; V2 = [[r.choice([0, 0, 1, 3]) for _ in range(n)] for _ in range(n)]
+            yield dict(case, P1=P1, P2=P2, V1=V1, V2=V2, with_profiles=True, family=case["family"] + "_revalued", cpv=False, vdtype="int64")
+        for c in self.shrink(case): yield c
 
     def ordinal(self, case):
         """the ordinal profiles the rule works with (given, or induced by distinct valuations)"""
